@@ -298,6 +298,40 @@ SPEC_CODES = {
 }
 
 
+def descriptor_sweep():
+    """Both item APIs for the same typed value: every data item of the YAML catalogue (DataItemDescriptor.generate, the Item API) against
+    the data item class of the same name (the variables API), with plain values of each kind: same bytes, or both refuse."""
+    import secsgem.secs.data_items as di
+    from secsgem.secs import data_item as DI
+    descriptors = DI.DataItemDescriptors.from_yaml(DI.default_yaml_path)
+    samples = [0, 1, 5, 200, 300, 70000, -3, True, "x", "abc", b"\x01", b"abc", [1, 2], [True, False], 1.5]
+    diffs, tried = [], 0
+    for name in sorted(n for n in vars(di) if n.isupper()):
+        cls = getattr(di, name)
+        if not (isinstance(cls, type) and issubclass(cls, di.DataItemBase)) or getattr(cls, "__type__", None) is None:
+            continue
+        try:
+            des = descriptors[name]
+        except KeyError:
+            continue
+        if isinstance(des.type, list) and len(des.type) != 1:
+            continue            # several allowed types: which one a PLAIN value gets is each API's choice, the value is not a typed one
+        for value in samples:
+            def via(fn):
+                try:
+                    return fn().encode().hex()
+                except (ValueError, TypeError, IndexError, UnicodeError, OverflowError):
+                    return "refused"
+                except Exception as exc:  # noqa: BLE001
+                    return "raised " + type(exc).__name__
+            a, b = via(lambda: des.generate(value)), via(lambda: cls(value))
+            tried += 1
+            # the comparison is about values both APIs take: what only one of them refuses is a matter of its input forms
+            if a != b and "refused" not in (a, b) and not a.startswith("raised") and not b.startswith("raised") and len(diffs) < 6:
+                diffs.append({"data_item": name, "value": repr(value), "item_api_bytes": a[:40], "variables_api_bytes": b[:40]})
+    return tried, diffs
+
+
 def run(tier, replay=None):
     report = common.Report("C14", tier)
     if replay:
@@ -321,6 +355,10 @@ def run(tier, replay=None):
     merged = {"eval_errors": stats["eval_errors"] + dstats["eval_errors"], "observed": stats["observed"] + dstats["observed"],
               "skipped_unmodelled": stats["skipped_unmodelled"] + dstats["skipped_unmodelled"], "spec_checked": stats["spec_checked"] + dstats["spec_checked"]}
     c01.decide(report, "C14", all_cases, all_obs, all_bad, merged, proof, SPEC_CODES, c01.MODEL_CODES)
+    tried, diffs = descriptor_sweep()
+    report.coverage["descriptor_sweep"] = {"pairs_tried": tried, "differences": diffs}
+    if diffs:
+        report.violation({"kind": "counterexample", "what": "the two item APIs produce different bytes for the same value of the same data item", "differences": diffs}, True, tag="descriptor")
     # Item.decode of any valid encoding: <U1 7> inside 500 one-element lists
     raw, res = common.nested_bytes(500), {"depth": 500, "bytes": 1003}
     try:
